@@ -412,7 +412,7 @@ def i_MLA(i, fmap):
     fmap[dest] = stst(cond, result, fmap(dest))
     if i.setflags:
         fmap[Z] = stst(cond, (result == 0), fmap(Z))
-        fmap[N] = stst(cond, (result < 0), fmap(N))
+        fmap[N] = stst(cond, result.bit(-1), fmap(N))
 
 
 def i_MLS(i, fmap):
